@@ -197,7 +197,12 @@ static void run_cfg(Report & R, size_t Bd, bool full_basis)
                     }
                     const double g = static_cast<double>(got[j]);
                     // relative term from the operation count + an absolute floor for gradual underflow of weight products
-                    const double tol = tolc * static_cast<double>(mag) + double(size_t(1) << N) * static_cast<double>(std::numeric_limits<C>::min()) * (std::max(std::fabs(vmin), std::fabs(vmax)) + 1.0);
+                    // norm-wise: relative to the largest surrounding lattice value, so that formulations which difference
+                    // stored values (nested lerps) are judged as "up to rounding" too; a wrong weight or neighbour is off by
+                    // a fraction of that magnitude, ten orders of magnitude above this
+                    (void)mag;
+                    const double vabs = std::max(std::fabs(vmin), std::fabs(vmax));
+                    const double tol = tolc * vabs + double(size_t(1) << N) * static_cast<double>(std::numeric_limits<C>::min()) * (vabs + 1.0);
                     const double err = std::fabs(static_cast<double>(static_cast<q128>(g) - exact));
                     R.observe(fnv_of(g));
                     auto cs = [&]() { return cas + "/pat=" + pat + (onehot >= 0 ? std::to_string(onehot) : "") + "/x" + vec_str(ci.x, N) + "/j" + std::to_string(j); };
